@@ -13,7 +13,7 @@ ID = 'C15'
 
 MANIFEST = {
     'engine': 'symx',
-    'text': 'Bounded symbolic model checking of the real count-min sketch source (cms_hash, _add, add, batch_add, query): the hash value of every item, the per-row seeds, the item chosen at every update and its non-negative weight are symbolic; after every prefix of the stream z3 shows true weight <= query(x) <= total weight and that every row sums to the total. The bounded counter is driven through every item stream within the bound (items chosen by solver decisions) against an exact recount.',
+    'text': 'Bounded symbolic model checking of the real count-min sketch source (cms_hash, _add, add, batch_add, query): the hash value of every item, the per-row seeds, the item chosen at every update and its non-negative weight are symbolic; after every prefix of the stream z3 shows true weight <= query(x) <= total weight and that every row sums to the total. The bounded counter is driven through every item stream within the bound (items chosen by solver decisions) against an exact recount. The same three bounded-counter clauses are also explored through compute_cardinalities over every split of a 4-value stream into mini-batches; fixed-width (uint32) array arithmetic wraps as in numpy.',
     'note': 'Streams of <=3 (quick) / <=4 (thorough) updates over 3 items, depth<=2, width<=3, weights 0..5; int32 cell overflow outside (totals < 2^31); the numba-level integer arithmetic of cms_hash is validated against the Python-level model ((hash mod 2^32)+seed) mod width on concrete boundary values before the symbolic run; batch_add of the bounded counter is outside (the statement says item by item).',
     'technique': 'symbolic execution of the real Python source with z3 (hash values and seeds as unconstrained 32-bit integers, matrix cells as If-merged terms)',
 }
